@@ -1573,6 +1573,12 @@ impl WriteTaskState {
         let LaneData { target, response } = response;
         if let Some(remote_id) = target {
             trace!(response = ?response, "Routing response to {}.", remote_id);
+            if !write_tracker.has_remote(remote_id) {
+                // The remote has been removed since it made the request: there is nobody to send
+                // the response to and it must not be recorded as linked.
+                trace!(response = ?response, "Discarding response for unknown remote {}.", remote_id);
+                return Either::Left(Writes::Zero);
+            }
             links.count_single(id);
             let write = if !links.is_linked(remote_id, id) {
                 trace!(response = ?response, "Sending implicit linked message to {}.", remote_id);
